@@ -573,7 +573,7 @@ class FunctionPlugin(PrimitivePlugin):
     def _batching_rule(
         self, args: tuple[Any, ...], dims: tuple[Any, ...], **params: Any
     ) -> tuple[Any, Any]:
-        params.pop("instance_key", None)
+        instance_key = params.pop("instance_key", None)
         call_kwargs = {}
         for key, value in params.items():
             if isinstance(value, _DynamicParamWrapper):
@@ -582,6 +582,12 @@ class FunctionPlugin(PrimitivePlugin):
                 call_kwargs[key] = value
 
         original_fn = self._orig_fn
+        # A class target has one primitive for all of its instances: call the
+        # instance this equation was bound for, not the one bound last.
+        instance = INSTANCE_MAP2.get(instance_key) if instance_key is not None else None
+        unbound_call = getattr(self, "_orig_call", None)
+        if instance is not None and unbound_call is not None:
+            original_fn = unbound_call.__get__(instance, type(instance))
 
         if original_fn is None:
             raise NotImplementedError(
@@ -629,6 +635,7 @@ class FunctionPlugin(PrimitivePlugin):
                     INSTANCE_MAP2[instance_key] = instance
                     bound_orig = original_call.__get__(instance, type(instance))
                     self._orig_fn = bound_orig
+                    self._orig_call = original_call
                     # If we are currently constructing this function's body, do NOT emit
                     # the function primitive again—call through so inner patches take effect.
                     if self.name in _IN_FUNCTION_BUILD.get():
